@@ -986,6 +986,7 @@ func (g *Gen) instr(in ssa.Instruction, st *State) {
 			st.cells[v] = w.zero(et)
 		}
 	case *ssa.Store:
+		g.fieldStoreClauses(v, st)
 		if al, ok := v.Addr.(*ssa.Alloc); ok && g.arrBase[al].S != "" {
 			// whole-array assignment to a local array (`for _, pair := range pairs`): element by element into its cells
 			if at, ok := al.Type().Underlying().(*types.Pointer).Elem().Underlying().(*types.Array); ok && at.Len() <= 16 {
@@ -1592,9 +1593,17 @@ func (g *Gen) call(c *ssa.CallCommon, res ssa.Value, st *State, pos token.Pos) {
 						env.boundTypes["callee"] = c.Value.Type()
 					}
 				}
+				if h.Cover {
+					env.role = roleAssume
+				}
 				t, err := env.evalBool(h.Expr)
 				if err != nil {
 					g.note("spec error in before-clause [%s]: %v", h.Label, err)
+					continue
+				}
+				if h.Cover {
+					// reachability requirement: "not e" must NOT be provable here (a dead path or a guard that excludes e fails it)
+					g.addObNoAssume("cover", "reached_with["+h.Label+"]", pos, st, fmt.Sprintf("(not %s)", t.S))
 					continue
 				}
 				g.addOb("before", h.Label, pos, st, t.S)
@@ -1704,6 +1713,44 @@ func (g *Gen) call(c *ssa.CallCommon, res ssa.Value, st *State, pos token.Pos) {
 }
 
 // callOrdinal: 1-based index of this call among the calls to the same callee, in source order.
+// fieldStoreClauses: `at call fieldstore:T.f before [label] e` states an obligation on every store into field f of a
+// struct of (named) type T made by this function; arg0 is the object the field belongs to (its address), arg1 the value
+// about to be stored. ("this function only ever SETS Config.Manual")
+func (g *Gen) fieldStoreClauses(v *ssa.Store, st *State) {
+	if g.ctr == nil || g.ctr.AtCallBefore == nil {
+		return
+	}
+	fa, ok := v.Addr.(*ssa.FieldAddr)
+	if !ok {
+		return
+	}
+	pt, ok := fa.X.Type().Underlying().(*types.Pointer)
+	if !ok {
+		return
+	}
+	named, ok := pt.Elem().(*types.Named)
+	if !ok {
+		return
+	}
+	stt, ok := named.Underlying().(*types.Struct)
+	if !ok {
+		return
+	}
+	k := "fieldstore:" + named.Obj().Name() + "." + stt.Field(fa.Field).Name()
+	for _, h := range g.ctr.AtCallBefore[k] {
+		g.markAtCall(k)
+		env := &SpecEnv{g: g, st: st, old: g.entry, fn: g.f, argOverride: map[string]Term{}, bound: map[string]Term{}, boundTypes: map[string]types.Type{}, evalBlock: g.curBlock, role: roleAssert}
+		env.bound["arg0"], env.boundTypes["arg0"] = g.val(fa.X, st), fa.X.Type()
+		env.bound["arg1"], env.boundTypes["arg1"] = g.val(v.Val, st), v.Val.Type()
+		t, err := env.evalBool(h.Expr)
+		if err != nil {
+			g.note("spec error in before-clause [%s]: %v", h.Label, err)
+			continue
+		}
+		g.addOb("before", h.Label, v.Pos(), st, t.S)
+	}
+}
+
 // mapUpdateClauses: `at call mapupdate#n before [label] e` states an obligation on the n-th map store of the function (in
 // source order), `mapupdate:KEY` on the store(s) under the constant string key KEY, `mapupdate:*#n` on the n-th store under a
 // computed key; arg0 is the map, arg1 the key and arg2 the value about to be stored.
